@@ -115,6 +115,14 @@ Theorem C09_document_round_trip : forall s, canon_state s = true ->
 Proof. exact doc_round_trip. Qed.
 Print Assumptions C09_document_round_trip.
 
+(* one element on its own - what the SQL child row's JSON column, a Mongo document's array entry and a Redis JSON value
+   hold for a rule or a dictionary of rules (PolicyModel._policy_element_to_db / _from_db move it unchanged:
+   SqlModelGE.element_round_trip) *)
+Theorem C09_element_round_trip : forall e, canon_elemv e = true ->
+  exists v, enc_elemv e = Some v /\ forall f, elemv_depth e <= f -> dec_elemv f v = Some e.
+Proof. intros e H. destruct (elemv_round e H) as [v [E [_ D]]]. exists v. split; assumption. Qed.
+Print Assumptions C09_element_round_trip.
+
 (* ... and so the whole path - construct, to_json, parse, rebuild, Policy.from_json - ends in the written attributes *)
 Theorem C09_json_path_round_trip : forall a s, ctor a = Ok s -> canon_state (data_of s) = true ->
   exists d, policy_doc (data_of s) = Some d /\
